@@ -174,7 +174,7 @@ def parse_row(region_row):
     shape_key = 'COMPONENT'
     if shape_key in region_row.colnames:
         component = int(region_row[shape_key])
-        meta = {'component': component}
+        meta['component'] = component
 
     if meta:
         region.meta = RegionMeta(meta)
